@@ -29,5 +29,8 @@ pub fn write_line<W: Write>(w: &mut W, v: &serde_json::Value) {
 
 /// Silence the default panic printer: panics in the code under test are data.
 pub fn quiet_panics() {
+    if std::env::var("VQ_LOUD").is_ok() {
+        return;
+    }
     std::panic::set_hook(Box::new(|_| {}));
 }
